@@ -87,7 +87,9 @@ def run(pid, tier, seed):
         "exhaustive": True, "exhaustive_scope": "all %d interface categories that have a class; categories without an instance: %s" % (len(table), missing),
         "categories_covered": len(by_cat), "implementation_classes": len(impls), "categories_without_instance": missing,
     }
-    if missing:
+    if missing and not violations:
+        # (a category without an instance and no violation: the sweep is incomplete; with violations, the missing category is
+        #  most likely the very node that reports a wrong code, and the violation is the verdict)
         raise vlib.ModelFailure("zoo has no instance of %s" % missing)
     return {"coverage": coverage, "violations": violations,
             "assumptions": ["the Super table of spec/IprVisitor.tla was transcribed from the class heads at the pinned commit"]}
